@@ -289,8 +289,9 @@ Fixpoint decode_trace (l : list N) : list event :=
   | k :: a :: b :: r =>
       let j := (a * 256 + b)%N in
       (match k with
-       | 0%N => ESubCall j | 1%N => ESubRet j | 2%N => EStart j | 3%N => EEnd j | 4%N => ERelCall | _ => ERelRet
-       end) :: decode_trace r
+       | 0%N => [ESubCall j] | 1%N => [ESubRet j] | 2%N => [EStart j] | 3%N => [EEnd j] | 4%N => [ERelCall] | 5%N => [ERelRet]
+       | _ => []     (* kind 6: "the server has read request j", an event of the handler scenarios (Conc/PoolUse.v) *)
+       end) ++ decode_trace r
   | _ => []
   end.
 
@@ -312,13 +313,3 @@ Definition fstep (φ : fifo_st) (e : event) : option fifo_st :=
 Fixpoint fruns (φ : fifo_st) (tr : list event) : option fifo_st :=
   match tr with [] => Some φ | e :: r => match fstep φ e with Some φ' => fruns φ' r | None => None end end.
 Definition fifo1_ok (tr : list event) : bool := match fruns finit tr with Some _ => true | None => false end.
-
-(* [c_fifo]: the harness asks for the FIFO check (one worker, a trace short enough for the cubic check) *)
-Record tcase := mkcase { c_W : N; c_complete : bool; c_fifo : bool; c_trace : list N }.
-Definition case_ok (c : tcase) : bool :=
-  let tr := decode_trace (c_trace c) in
-  (if c_complete c then accepts_complete (N.to_nat (c_W c)) tr else accepts (N.to_nat (c_W c)) tr) &&
-  (if c_fifo c && (c_W c =? 1)%N then fifo1_ok tr else true).
-
-(* indices (from [off]) of the recorded traces that the specification machine rejects *)
-Definition c19_mismatch (off : N) (cs : list tcase) : list N := failing_from case_ok off cs.
